@@ -543,6 +543,8 @@ def discharge(ctx, F, ps):
     if ps.kind == 'ptrcheck':
         return 'compiler-inserted reference validity check (debug assertions), not a source-level panic'
     if ps.kind == 'overflow' and ps.detail == 'Add':
+        # pointer-sized or wider (narrower integers carry their type in the detail, see lib.panic_sites): a sum of in-memory
+        # lengths / byte counts / loop counters cannot exceed the address space
         return 'class: addition of in-memory lengths / byte counts'
     if ps.kind == 'overflow' and ps.detail == 'Mul' and ps.term is not None:
         # product of in-memory collection lengths / constants (capacity hints of a cartesian product): each factor is bounded
@@ -625,7 +627,7 @@ def discharge(ctx, F, ps):
             return 'both indices are within 0..len of the captured slice (closure run over 0..len; element / remainder by len)'
         return None
     if ps.kind == 'bounds' and ps.term is not None:
-        why = bounds_by_range(body, ps)
+        why = bounds_by_range(body, ps) or bounds_by_from_fn(F, body, ps)
         if why:
             return why
         # constant index into a slice whose length was checked: x[0] under !x.is_empty()
@@ -880,6 +882,34 @@ def bounds_by_range(body, ps):
     return None
 
 
+def bounds_by_from_fn(F, body, ps):
+    """BoundsCheck `i < N` in the closure of `std::array::from_fn::<_, N, _>`, i being the closure's argument: from_fn calls it
+    with 0..N only, and the indexed array has the same const length N."""
+    if body.kind != 'Closure':
+        return None
+    cond = ps.term['cond']
+    if not is_place(cond):
+        return None
+    _, d = lib.resolve_copy(body, op_local(cond))
+    if d is None or d.kind != 'assign' or d.rv['k'] != 'bin' or d.rv['op'] != 'Lt':
+        return None
+    idx, ln = d.rv['a'], d.rv['b']
+    if not is_place(idx) or 'c' not in ln:
+        return None
+    srcs = lib.copy_chain_sources(body, idx)
+    if not (srcs and all(s[0] == 'param' and s[1] == 2 and not s[2] for s in srcs)):
+        return None
+    n_txt = ln['c'].get('s')
+    for (pb, c, _i) in lib.closure_consumers(F, body):
+        if c.is_(r'^std::array::from_fn$'):
+            ga = (c.fn or {}).get('gargs') or []
+            full = c.full or ''
+            m = re.search(r'from_fn::<[^,]+, ([^,]+),', full)
+            if m and n_txt is not None and m.group(1).strip() == str(n_txt).replace('const ', '').strip():
+                return 'index is the argument of array::from_fn::<_, %s, _> and the array has the same length' % m.group(1).strip()
+    return None
+
+
 def audit_panics(ctx, F, reach, label):
     used = {}
     n_sites = 0
@@ -924,3 +954,45 @@ def panic(ctx):
     ctx.floor(len(reach), 150, 'functions reachable from the untrusted-input entry points')
     ctx.floor(n, 40, 'panic sites enumerated')
     ctx.note('%d functions reachable from %d entry points; %d panic sites' % (len(reach), len(roots), n))
+
+
+LINEAR = (r'^std::iter::Iterator::(any|all|find|find_map|position|rposition|count|fold|try_fold|for_each|try_for_each|max|min|max_by|'
+          r'min_by|max_by_key|min_by_key|sum|product|last|nth|collect|eq|cmp)$',
+          r'^core::slice::<impl \[T\]>::(contains|iter|binary_search|sort|sort_unstable|sort_by|sort_by_key|starts_with|ends_with)$',
+          r'^std::vec::Vec::<[^>]*>::(retain|dedup|dedup_by|dedup_by_key|remove|insert|drain)$',
+          r'^std::collections::LinkedList::<[^>]*>::(contains|iter)$')
+
+
+@rule('C14', 'per-element-work-constant', configs=('default', 'p256'))
+def per_element_work_constant(ctx):
+    """'... in time proportional to the input': the container operations a deserializer performs once per element read
+    (RevisionVec::insert_new_chain, RevisionMap::insert, Dict::insert, ...) do a constant amount of work — no loop, no linear
+    scan of the container being filled. A scan per insertion makes reading n elements cost n^2: 1.5 MB of input keeps a core
+    busy for seconds."""
+    from .c13 import serializable_impls, loop_depths
+    F = ctx.F
+    callees = {}
+    for (i, w, r, ln) in serializable_impls(F):
+        if r is None:
+            continue
+        for fb in lib.family_ext(F, r.key):
+            for c in fb.calls():
+                g = lib.local_callee(F, c)
+                if g is not None and g.key.startswith('data_struct::') and g.kind != 'Closure':
+                    callees.setdefault(g.key, fb.key)
+    n = 0
+    for gk in sorted(callees):
+        n += 1
+        bad = []
+        for fb in lib.reach_bodies(F, gk, precise=True):
+            if not (fb.root or fb.key).startswith('data_struct::'):
+                continue
+            depth, _dom = loop_depths(fb)
+            if any(d > 0 for d in depth.values()):
+                bad.append('a loop in %s' % fb.key)
+            for c in fb.calls(*LINEAR):
+                bad.append('%s (line %d)' % (c.name, c.ln))
+        ctx.check(not bad, gk, 'constant work per element',
+                  '%s, called once per element by a deserializer (%s), does work proportional to the container (%s): reading is '
+                  'quadratic in the input size' % (gk, callees[gk], '; '.join(bad[:3])), 'no loop, no linear scan', F.bodies[gk].where())
+    ctx.floor(n, 2, 'container operations called by deserializers')
